@@ -594,7 +594,9 @@ const char* edn_string_get(const edn_value_t* value, size_t* length) {
     /* Slow path: has escapes, decode if not already cached */
     if (!value->as.string.decoded) {
         size_t str_length = edn_string_get_length(value);
-        char* decoded = edn_decode_string(value->arena, value->as.string.data, str_length);
+        size_t decoded_length = 0;
+        char* decoded =
+            edn_decode_string_n(value->arena, value->as.string.data, str_length, &decoded_length);
         if (!decoded) {
             if (length)
                 *length = 0;
@@ -602,10 +604,12 @@ const char* edn_string_get(const edn_value_t* value, size_t* length) {
         }
         /* Cast away const - we're modifying cached field */
         ((edn_value_t*) value)->as.string.decoded = decoded;
+        ((edn_value_t*) value)->as.string.decoded_length = decoded_length;
     }
 
     if (length) {
-        *length = strlen(value->as.string.decoded);
+        /* Not strlen: the decoded bytes may contain NUL */
+        *length = value->as.string.decoded_length;
     }
     return value->as.string.decoded;
 }
